@@ -111,19 +111,25 @@ Theorem C10_aliases_only_in_own_language : forall g lv lf al u l y,
   al = Some l /\ y = oname (u_occ u).
 Proof. exact aliases_only_in_own_language. Qed.
 
-(* (8) DEFECT (finding c10-excess-args): as long as the source zips call arguments with parameters only
-       (the generated flag is false on the unchanged tree), "every use of a name refers to ..." is
-       false as stated: an argument beyond the callee's last parameter is never resolved and never
-       diagnosed.  With the remaining arguments visited (flag true after
-       fixes/c10-resolve-excess-call-args.diff) no use is ever skipped. *)
-Theorem C10_every_use_bound_refuted : gen_visit_excess_args = false ->
+(* (8) DEFECT (findings c10-excess-args, c10-padding-gap): a call argument that is not matched with a
+       parameter of the callee is visited only by an extra loop, which (read from the source on every
+       run: gen_excess_mode, gen_zip_skips_padding) was missing at first and now starts after as many
+       arguments as the callee has parameters -- although padding parameters are matched with no
+       argument.  As long as some arguments are left out, "every use of a name refers to ..." is false
+       as stated: an accepted program can contain a use that refers to nothing.  Once every argument
+       is visited (fixes/c10-resolve-args-after-matched.diff) no use is ever skipped. *)
+Theorem C10_every_use_bound_refuted : some_args_skipped ->
   exists g fl sl p evs id, resolve_outcome g fl sl p = Ok evs /\ In (EvRes id RSkipped) evs
                            /\ forall r, binds g fl sl p id r -> r = RSkipped.
 Proof. exact every_use_bound_refuted. Qed.
 
-Theorem C10_uses_never_skipped_after_fix : gen_visit_excess_args = true ->
+Theorem C10_uses_never_skipped_after_fix : all_args_visited ->
   forall g lv lf al u, resolve_use g lv lf al u <> RSkipped.
 Proof. exact uses_never_skipped. Qed.
+
+(* exactly one of the two holds for the source as it is now *)
+Theorem C10_args_visited_or_skipped : all_args_visited \/ some_args_skipped.
+Proof. exact args_visited_or_skipped. Qed.
 
 (* (9) ... and true for every occurrence that is visited at all *)
 Theorem C10_accepted_uses_are_bound : forall g fl sl p evs,
@@ -146,7 +152,7 @@ Proof. exact accepted_uses_are_bound. Qed.
          }
          a(a, c);                   // instruction alias a; parameter a; local c   a15 a16 c17
      }                                                                                              *)
-Definition ex_genv : genv := GEnv [(0, 0)] [(0, 0, 21); (5, 1, 5)] [(0, 21, [None; None])] [] [(9, [2])].
+Definition ex_genv : genv := GEnv [(0, 0)] [(0, 0, 21); (5, 1, 5)] [(0, 21, [(None, false); (None, false)])] [] [(9, [2])].
 Definition ex_prog : prog :=
   PFile [ IConst [(Occ 1 0, [Use UVar (Occ 2 1) []])];
           IFunc QNone (Occ 3 2) [Occ 0 3; Occ 5 4]
